@@ -210,6 +210,10 @@ func cmdCheck(args []string) {
 	var knownLines []string
 	var violationLines []string
 	var undecidedLines []string
+	for _, m := range P.missingAnchors {
+		undecided++
+		undecidedLines = append(undecidedLines, fmt.Sprintf("UNDECIDED property=%s %s", *prop, m))
+	}
 	handle := func(fn string, vc *VC, r *Result) {
 		name := r.Obl.Name
 		if len(r.Obl.Only) > 0 && !hasProp(r.Obl.Only, *prop) {
